@@ -145,6 +145,19 @@ func runDump(w *World, args []string) {
 			}
 		}
 		fmt.Println("total sites", tot, "open", open)
+	case "ensures":
+		for _, k := range w.KindsL {
+			if len(args) > 1 && !strings.Contains(k.Name, args[1]) {
+				continue
+			}
+			if k.Unmarshal == nil {
+				continue
+			}
+			fmt.Println("==", k.Name)
+			for _, f := range w.Ensures(k.Unmarshal) {
+				fmt.Printf("   %s   [%s]\n", f.String(), f.Src)
+			}
+		}
 	case "facts":
 		for _, k := range w.KindsL {
 			if k.Len == nil || k.Marshal == nil {
